@@ -64,10 +64,15 @@ theorem mem_getrange {p : Plane} {b : Rect} {k : Key} (hd : 0 < p.gridsize) :
   obtain ⟨x0, y0, x1, y1⟩ := b
   obtain ⟨gx, gy⟩ := k
   unfold getrange
-  simp only [List.mem_flatMap, List.mem_map, Prod.mk.injEq, mem_drange hd, clampLo, clampHi]
+  simp only [plane_clamp, List.mem_flatMap, List.mem_map, Prod.mk.injEq, mem_drange hd, clampLo, clampHi]
   constructor
   · rintro ⟨gy', hy, gx', hx, rfl, rfl⟩; exact ⟨hx, hy⟩
   · rintro ⟨hx, hy⟩; exact ⟨gy, hy, gx, hx, rfl, rfl⟩
+
+/-- The hand-written overlap test IS the negation of the regenerated skip condition of `Plane.find`. -/
+theorem overlaps_eq_not_skip (o : PObj) (q : Rect) : overlaps o q = !(plane_find_skip o.x0 o.y0 o.x1 o.y1 q) := by
+  obtain ⟨x0, y0, x1, y1⟩ := q
+  rfl
 
 /-- Well-formed box. -/
 def WfRect (b : Rect) : Prop := b.1 ≤ b.2.2.1 ∧ b.2.1 ≤ b.2.2.2
@@ -292,20 +297,36 @@ theorem length_flatMap_const {α β : Type} (l : List α) (f : α → List β) (
 /-- `_cells` counts the cells without enumerating them. -/
 theorem length_getrange (p : Plane) (b : Rect) : (getrange p b).length = cellCount p b := by
   obtain ⟨x0, y0, x1, y1⟩ := b
-  simp only [getrange, cellCount, drange_bounds]
+  simp only [getrange, plane_clamp, cellCount, drange_bounds]
   rw [length_flatMap_const _ _ ((rStop (max (min p.x1 x1) p.x0) p.gridsize - rStart (min (max p.x0 x0) p.x1) p.gridsize).toNat)
     (by intro gy _; simp [length_pyRange])]
   rw [length_pyRange, Nat.mul_comm]
 
+/-- The regenerated cell-count test of `Plane._cells` (`max(0, stop - start)` products against `MAXCELLS`):
+a box that is NOT sent to the overflow list has at most `MAXCELLS` cells.  (Deliberately only this direction:
+it is what the theorems need, and it also holds for the behaviour-preserving variant `>=` of the test.) -/
+theorem cells_over_false {a b c d : Int} (h : plane_cells_over a b c d = false) :
+    (b - a).toNat * (d - c).toNat ≤ PLANE_MAXCELLS := by
+  simp only [plane_cells_over, PLANE_MAXCELLS_I] at h
+  have h := of_decide_eq_false h
+  rw [show max (0 : Int) (b - a) = ((b - a).toNat : Int) by omega,
+      show max (0 : Int) (d - c) = ((d - c).toNat : Int) by omega, ← Int.natCast_mul] at h
+  simp only [PLANE_MAXCELLS]
+  omega
+
 theorem cells?_some {p : Plane} {b : Rect} {ks : List Key} (h : cells? p b = some ks) :
     ks = getrange p b ∧ ks.length ≤ PLANE_MAXCELLS := by
-  unfold cells? at h
-  split at h
-  · simp at h
-  · rename_i hle
-    simp only [Option.some.injEq] at h
+  obtain ⟨x0, y0, x1, y1⟩ := b
+  cases hc : plane_cells_over (rStart (min (max p.x0 x0) p.x1) p.gridsize) (rStop (max (min p.x1 x1) p.x0) p.gridsize)
+      (rStart (min (max p.y0 y0) p.y1) p.gridsize) (rStop (max (min p.y1 y1) p.y0) p.gridsize) with
+  | true => simp [cells?, plane_clamp, hc] at h
+  | false =>
+    simp only [cells?, plane_clamp, hc, Bool.false_eq_true, if_false, Option.some.injEq] at h
     subst h
-    exact ⟨rfl, by rw [length_getrange]; omega⟩
+    refine ⟨rfl, ?_⟩
+    rw [length_getrange]
+    simp only [cellCount]
+    exact cells_over_false hc
 
 /-- **Bounded work.**  No operation (`add`, `remove`, `find` on a box `b`) enumerates more than `MAXCELLS`
 grid cells, whatever the coordinates of the box and of the plane are. -/
@@ -365,10 +386,58 @@ theorem cells?_congr {p p' : Plane} (h : p'.gridsize = p.gridsize ∧ p'.x0 = p.
     (b : Rect) : cells? p' b = cells? p b := by
   have hg := getrange_congr h b
   obtain ⟨h1, h2, h3, h4, h5⟩ := h
-  unfold cells? cellCount; rw [hg, h1, h2, h3, h4, h5]
+  unfold cells?; rw [hg, h1, h2, h3, h4, h5]
 
 
 theorem remove_ok (p : Plane) (o : PObj) (h : o.id ∈ p.objs) : (remove p o).2 = true := by
   unfold remove; cases cells? p (bboxOf o) <;> simp [h]
+
+/-! ### Round 6: removal of an absent object, `__contains__`, `__len__`, `extend` -/
+
+theorem foldl_erase_absent (ks : List Key) (o : PObj) (g : List (Key × PObj)) (h : ∀ k, (k, o) ∉ g) :
+    ks.foldl (fun g k => g.erase (k, o)) g = g := by
+  induction ks with
+  | nil => rfl
+  | cons k ks ih =>
+    simp only [List.foldl_cons]
+    rw [List.erase_of_not_mem (h k)]
+    exact ih
+
+theorem extend_nil (p : Plane) : extend p [] = p := rfl
+theorem extend_cons (p : Plane) (o : PObj) (os : List PObj) : extend p (o :: os) = extend (addPy p o) os := rfl
+
+/-- For a new object the whole of `Plane.add` is the insertion proper. -/
+theorem addPy_fresh (p : Plane) (o : PObj) (h1 : o.id ∉ p.objs) (h2 : o ∉ p.seq) : addPy p o = add p o := by
+  simp [addPy, h1, h2]
+
+/-- Adding an object that is already in the index changes nothing. -/
+theorem addPy_live (p : Plane) (o : PObj) (h : o.id ∈ p.objs) : addPy p o = p := by
+  simp [addPy, h]
+
+theorem addPy_readd (p : Plane) (o : PObj) (h1 : o.id ∉ p.objs) (h2 : o ∈ p.seq) :
+    addPy p o = add (forget p o) o := by
+  simp [addPy, h1, h2]
+
+theorem filter_erase_of_false {α : Type} [DecidableEq α] (f : α → Bool) (a : α) (h : f a = false) :
+    ∀ l : List α, (l.erase a).filter f = l.filter f
+  | [] => rfl
+  | x :: l => by
+    by_cases hx : x = a
+    · subst hx
+      rw [List.erase_cons_head, List.filter_cons, h]
+      simp
+    · rw [List.erase_cons_tail (by simpa using hx), List.filter_cons, List.filter_cons,
+        filter_erase_of_false f a h l]
+
+theorem getrange_forget (p : Plane) (o : PObj) (b : Rect) : getrange (forget p o) b = getrange p b :=
+  getrange_congr ⟨rfl, rfl, rfl, rfl, rfl⟩ b
+
+theorem cells_forget (p : Plane) (o : PObj) (b : Rect) : cells? (forget p o) b = cells? p b :=
+  cells?_congr ⟨rfl, rfl, rfl, rfl, rfl⟩ b
+
+/-- Lists of distinct numbers with the same members have the same length. -/
+theorem length_eq_of_nodup_of_mem_iff {l₁ l₂ : List Nat} (h₁ : l₁.Nodup) (h₂ : l₂.Nodup)
+    (h : ∀ x, x ∈ l₁ ↔ x ∈ l₂) : l₁.length = l₂.length :=
+  ((List.perm_ext_iff_of_nodup h₁ h₂).mpr h).length_eq
 
 end PdfVerif.Plane
